@@ -1,5 +1,6 @@
 import VerifModel.Base.Proto
 import VerifModel.Model.OutputTable
+import VerifModel.Model.TimeLabel
 /-
   Driver ops for the text / csv writers (C12).
 
@@ -10,6 +11,8 @@ import VerifModel.Model.OutputTable
     tavg <nx> <matrix>                    threshold averaging of Standard._get_x_y
     seldesc <csv|text> <axis kind>        which descriptor columns the writer uses (T = thresholds, A = axis)
     value <chars>                         valueOf? (reads a %g numeral back)
+    tlabel <axis> <t,t,…>                 Data.get_axis_descriptions on a time-like axis with these axis values
+                                          (whole unix seconds): `Name:label,label,…`, blanks shown as `_`
 
   Encodings.  A string is `s` followed by its percent-encoded UTF-8 bytes; lists of strings are
   `;`-separated (`-` = empty list).  rows = `|`-separated `descs:ys` with descs a `;`-list of
@@ -114,6 +117,14 @@ def handle (args : List String) : Option String :=
         else if ax == "fcst" then some .fcst else if ax == "other" then some .other else none
       some (";".intercalate ((selectDescs csv ax "T" [("AX".toList, "A")]).map fun (n, v) =>
         String.ofList n ++ ":" ++ v))
+  | ["tlabel", ax, ts] => do
+      let k ← Axis.Kind.ofName? ax
+      let vals ← (ts.splitOn ",").mapM String.toInt?
+      some (match TimeLabel.descriptions k vals with
+        | none => "ERR"
+        | some (h, ls) =>
+          let shown := ls.map fun l => String.ofList (l.map fun c => if c = ' ' then '_' else c)
+          String.ofList h ++ ":" ++ ",".intercalate shown)
   | ["value", s] => do
       let cs ← pctDecode s
       some (match valueOf? cs with | none => "ERR" | some v => toString v)
